@@ -73,6 +73,11 @@ func WithGlobalTx(ctx context.Context, gc *GtxConfig, business CallbackWithCtx) 
 			}
 		}
 
+		// a recovered business panic must surface to the caller, not turn into success
+		if deferErr != nil && re == nil {
+			re = fmt.Errorf("business panic: %v", deferErr)
+		}
+
 		if re != nil || err != nil {
 			re = fmt.Errorf("first phase error: %v, second phase error: %v", re, err)
 		}
